@@ -70,9 +70,13 @@ type exchKey struct{}
 type Origin struct {
 	Handler Handler
 	Jitter  func() // optional schedule perturbation (Mode R)
+	Gate    func(what string) // Mode S: called when an upstream call arrives
 	mu      sync.Mutex
 	orphans []*UpCall // calls without an exchange in their context
 }
+
+// Goid returns the id of the calling goroutine (Mode S names its actors by it).
+func Goid() uint64 { return goid() }
 
 func goid() uint64 {
 	var buf [64]byte
@@ -141,6 +145,9 @@ func (o *Origin) RoundTrip(req *http.Request) (*http.Response, error) {
 	c.Serial = fmt.Sprintf("%d.%d", c.Exch, c.Index)
 	if o.Jitter != nil {
 		o.Jitter()
+	}
+	if o.Gate != nil {
+		o.Gate("origin " + req.Method + " " + req.URL.Path)
 	}
 	rep := o.Handler(c, req)
 	finish := func() {
